@@ -451,6 +451,21 @@ func runBuild(c *Ctx) {
 						lits = append(lits, p.ILits(pb)...)
 					}
 				}
+				// a test made through a boolean helper of the set (`vs.empty()`) counts as that helper
+				for _, l := range lits {
+					if l.Kind == "call" && strings.HasPrefix(l.Callee, "("+core.ArgPath) || l.Kind == "call" && strings.HasPrefix(l.Callee, "(*"+core.ArgPath) {
+						if h := p.Method(p.Arg, "ValueSet", l.Callee[strings.LastIndex(l.Callee, ".")+1:]); h != nil && len(h.Blocks) > 1 {
+							out[ternary(l.Pol, "", "!")+"ValueSet."+h.Name()+"()"] = true
+						}
+					}
+					if l.Kind == "bool" {
+						if cl, ok := l.Of.(*ssa.Call); ok && cl.Common().StaticCallee() != nil && p.InTarget(cl.Common().StaticCallee()) {
+							if _, getter := core.AsFieldLoad(cl); !getter {
+								out[c.litShape(l)] = true
+							}
+						}
+					}
+				}
 				for _, l := range p.ExpandLitsKeep(lits) {
 					if l.Kind != "cmp" {
 						continue
